@@ -34,16 +34,21 @@ IsTimeoutErr(rep) == rep.t = "perr" /\ rep.txt = "proxy request timeout"
 MonInit ==
   [ sent |-> <<>>, got |-> <<>>, cst |-> <<>>, nread |-> <<>>,
     ans |-> <<>>, redir |-> <<>>, nlog |-> <<>>, pend |-> <<>>, unread |-> <<>>,
+    unreadRedir |-> <<>>,\* conn -> fragments whose MOVED / ASK answer the proxy has not read yet
     lostp |-> <<>>,      \* conn -> fragments that died with it, not yet noticed by the proxy
     late |-> {},         \* conns that received bytes after the proxy's read in the iteration being observed
     dirty |-> {},        \* conns holding bytes the proxy has not read yet (it reads data before EOF)
     recvd |-> {}, lost |-> {}, noticed |-> {}, expired |-> {}, tmo |-> {}, rd |-> {},
     connLost |-> FALSE, viol |-> {}, dead |-> FALSE,
+    topoSeen |-> FALSE,  \* the scenario changes the cluster's description (the slot table is then not the static one)
     role |-> "", base |-> [nlog |-> <<>>, got |-> <<>>, cst |-> <<>>] ]   \* C08: outcome of the unsegmented twin
 
 Sent(m, c) == At(m.sent, c, <<>>)
 Got(m, c)  == At(m.got, c, <<>>)
 Cst(m, c)  == At(m.cst, c, "open")
+
+\* the connection has had a request answered with the timeout error: it must stay usable (C16)
+HadTimeout(m, c) == \E k \in DOMAIN Got(m, c) : IsTimeoutErr(Got(m, c)[k])
 
 Frags(m, c, i) == {<<c, i, s>> : s \in SeqRange(Sent(m, c)[i].slots)}
 HasUnowned(r)  == \E s \in SeqRange(r.slots) : s \in UnownedSlots
@@ -123,7 +128,9 @@ GotViol(m, c, i, rep) ==
       v03 == IF foreign # {} THEN {<<"C03", c, i, "foreign-data">>} ELSE {}
       v01 == IF ~TypeFits(r.k, rep) THEN {<<"C01", c, i, "wrong-position">>} ELSE {}
       v13 == IF rep.t = "err" /\ rep.txt \in {"MOVED", "ASK"} THEN {<<"C13", c, i, "redirect-leaked">>} ELSE {}
-      v16 == IF IsTimeoutErr(rep) /\ ~anyExp THEN {<<"C16", c, i, "spurious-timeout">>} ELSE {}
+      v16 == (IF IsTimeoutErr(rep) /\ ~anyExp THEN {<<"C16", c, i, "spurious-timeout">>} ELSE {})
+             \cup (IF HadTimeout(m, c) /\ (foreign # {} \/ ~TypeFits(r.k, rep))
+                   THEN {<<"C16", c, i, "reply-after-a-timeout-is-not-the-request's">>} ELSE {})
       rest ==
         IF r.k \in LocalKinds \/ IsTimeoutErr(rep) \/ foreign # {} \/ ~TypeFits(r.k, rep) THEN {}
         ELSE IF HasUnowned(r) THEN
@@ -171,10 +178,19 @@ WaitProp(m, c, i) ==
   ELSE IF \E f \in fs : f \notin m.rd THEN "C16"
   ELSE "C09"
 
+\* names of the nodes a scenario can redirect to (anything else is an address the proxy does not know)
+NodeNames == {"n1", "n2", "n3", "n4", "n5", "n6", "r1", "r2", "r3", "r4", "r5", "r6", "r7", "r8", "r9", "x1"}
+MasterNames == {"n1", "n2", "n3", "n4", "n5", "n6"}
+\* a request one of whose fragments was redirected to a node the proxy knows: following the redirect must end with a reply (C13)
+Redirected(m, c, i) == \E f \in Frags(m, c, i) : f \in DOMAIN m.redir /\ \E k \in DOMAIN m.redir[f] : m.redir[f][k].to \in NodeNames
+
 WaitViol(m, final) ==
   UNION { LET i0 == Len(Got(m, c)) + 1 IN
           IF Cst(m, c) = "open" /\ i0 <= Len(Sent(m, c)) /\ ReqResolved(m, c, i0, final)
           THEN {<<WaitProp(m, c, i0), c, i0, IF final THEN "never-answered" ELSE "reply-withheld">>}
+               \cup (IF Sent(m, c)[i0].k \notin LocalKinds /\ Redirected(m, c, i0)
+                     THEN {<<"C13", c, i0, IF final THEN "redirected-request-never-answered" ELSE "redirected-request-reply-withheld">>} ELSE {})
+               \cup (IF HadTimeout(m, c) THEN {<<"C16", c, i0, "request-after-a-timeout-not-answered">>} ELSE {})
           ELSE {}
         : c \in DOMAIN m.sent }
 
@@ -188,6 +204,17 @@ RecvViol(m, e, f) ==
       resend == f \in m.recvd
       mine   == {k \in DOMAIN log : log[k].k # "asking" /\ log[k].c = e.c /\ ~log[k].resend}
       v10 == IF ~resend /\ \E k \in mine : log[k].i > e.i THEN {<<"C10", e.c, e.i, "node-order">>} ELSE {}
+      \* With a fixed slot table the requests of one client for one slot are all first sent to the same master, which
+      \* is what keeps them in order even when they are redirected (the redirects are followed in the order they are
+      \* read).  A first transmission that goes to another master while an earlier request of the client for the same
+      \* slot is still being redirected overtakes it.
+      overtakes == \E n2 \in (DOMAIN m.nlog \cap MasterNames) \ {e.n} : \E k \in DOMAIN m.nlog[n2] :
+                     LET x == m.nlog[n2][k] IN
+                     /\ x.k # "asking" /\ x.c = e.c /\ x.s = f[3] /\ ~x.resend /\ x.i < e.i
+                     /\ <<x.c, x.i, x.s>> \in DOMAIN m.redir /\ <<x.c, x.i, x.s>> \notin DOMAIN m.ans
+                     /\ <<x.c, x.i, x.s>> \notin (m.lost \cup m.expired)
+      v10c == IF ~resend /\ ~m.topoSeen /\ e.n \in MasterNames /\ overtakes
+              THEN {<<"C10", e.c, e.i, "same-slot-request-overtakes-redirected-one">>} ELSE {}
       onconn == SelectSeq(log, LAMBDA x : x.conn = e.conn)
       prevAsking == onconn # <<>> /\ onconn[Len(onconn)].k = "asking"
       needAsking == LastRedir(m, f).kind = "ask" /\ LastRedir(m, f).to = e.n
@@ -205,7 +232,7 @@ RecvViol(m, e, f) ==
                   \cup (IF resend /\ f \notin DOMAIN m.redir THEN {<<"C06", e.c, e.i, "duplicate-fragment">>} ELSE {})
       v17 == IF r.k \in LocalKinds \/ (r.k # "?" /\ HasUnowned(r) /\ Len(r.slots) = 1)
              THEN {<<"C17", e.c, e.i, "unservable-request-forwarded">>} ELSE {}
-  IN v10 \cup v13 \cup v06 \cup v17
+  IN v10 \cup v10c \cup v13 \cup v06 \cup v17
 
 -----------------------------------------------------------------------------
 AddViol(m, vs) == [m EXCEPT !.viol = @ \cup vs]
@@ -241,6 +268,7 @@ MonApply(m, e) ==
              m1 == [m EXCEPT !.pend = Put(@, e.conn, IF p = <<>> THEN p ELSE Tail(p))]
          IN IF e.kind \in {"moved", "ask"}
             THEN [m1 EXCEPT !.redir = Put(@, f, Append(At(m.redir, f, <<>>), [kind |-> e.kind, to |-> e.to, from |-> e.n])),
+                            !.unreadRedir = Put(@, e.conn, At(m.unreadRedir, e.conn, {}) \cup {f}),
                             !.dirty = @ \cup {e.conn}]
             ELSE [m1 EXCEPT !.ans = Put(@, f, [n |-> e.n, kind |-> e.kind, cls |-> e.cls, num |-> e.num,
                                                vals |-> [k \in DOMAIN e.toks |-> e.toks[k].v]]),
@@ -284,9 +312,14 @@ MonApply(m, e) ==
              newrd == UNION {At(m.unread, cn, {}) : cn \in conns}
              eof   == conns \ m.dirty      \* one read per event: pending bytes first, end-of-file next time
              newnt == UNION {At(m.lostp, cn, {}) : cn \in eof}
+             \* a redirect that is read before the iteration's timeout scan takes the fragment out of the timeout tree;
+             \* re-sent, it gets a new deadline: an expiry of the old one that no scan has seen is void
+             rearmed == UNION {At(m.unreadRedir, cn, {}) : cn \in conns} \ m.tmo
              m1 == [m EXCEPT !.rd = @ \cup newrd,
                              !.noticed = @ \cup newnt,
-                             !.tmo = IF e.seen # <<>> THEN @ \cup m.expired ELSE @,
+                             !.expired = @ \ rearmed,
+                             !.tmo = IF e.seen # <<>> THEN @ \cup (m.expired \ rearmed) ELSE @,
+                             !.unreadRedir = [cn \in DOMAIN m.unreadRedir |-> IF cn \in conns THEN {} ELSE m.unreadRedir[cn]],
                              !.unread = [cn \in DOMAIN m.unread |-> IF cn \in conns THEN {} ELSE m.unread[cn]],
                              !.lostp = [cn \in DOMAIN m.lostp |-> IF cn \in eof THEN {} ELSE m.lostp[cn]],
                              !.dirty = (@ \ conns) \cup m.late, !.late = {},
@@ -302,6 +335,7 @@ MonApply(m, e) ==
                                                                      /\ \E f \in Frags(m1, c, x) : f \notin m1.recvd} }
                                 : c \in DOMAIN m1.got }
          IN AddViol(m1, WaitViol(m1, TRUE) \cup missing)
+    [] e.ev \in {"topo", "refreshed"} -> [m EXCEPT !.topoSeen = TRUE]
     [] e.ev = "dead" -> [m EXCEPT !.dead = TRUE, !.viol = @ \cup {<<"DEAD", "", 0, "proxy-died">>}]
     [] OTHER -> m
 =============================================================================
